@@ -18,7 +18,9 @@ import (
 //	graphql/handler/transport/http_get.go      statusFor, statusForGraphQLResponse (switch on GetErrorKind),
 //	                                           the `op.Operation != ast.Query` guard of GET.Do and its status
 //	graphql/handler/transport/headers.go       the two media type constants and determineResponseContentType
-//	                                           (explicit header loop, empty-Accept answer, switch cases, default)
+//	                                           (explicit header loop, empty-Accept answer, switch cases, a `default:`
+//	                                           arm of the switch, the final return)
+//	graphql/executor/executor.go               the code carried by the error each refusal exit returns (httpgate.go)
 //
 // The translation is of what is there: a missing guard is translated as "refuses nothing", a missing
 // explicit-header loop as "explicit headers do not win" - the theorems of Props/C09.lean then stop closing.
@@ -412,7 +414,7 @@ func extractHttpStatus(repo string) (string, error) {
 	if fd == nil {
 		return "", fmt.Errorf("determineResponseContentType not found")
 	}
-	explicitWins, emptyAccept, def := "false", "none", ""
+	explicitWins, emptyAccept, def, swDefault := "false", "none", "", "none"
 	var cases []string
 	sawLoop := false
 	for _, s := range fd.Body.List {
@@ -475,8 +477,18 @@ func extractHttpStatus(repo string) (string, error) {
 			}
 			for _, c := range sw.Body.List {
 				cc := c.(*ast.CaseClause)
-				if cc.List == nil || len(cc.Body) != 1 {
-					x.fail(cc, "accept switch: default clause or multi-statement case")
+				if len(cc.Body) != 1 {
+					x.fail(cc, "accept switch: multi-statement case")
+					continue
+				}
+				if cc.List == nil {
+					// a `default:` arm INSIDE the loop answers at the first media range no case knows
+					rv, ok := retVal(cc.Body[0])
+					if !ok || swDefault != "none" {
+						x.fail(cc, "accept switch: default clause does not return a media type constant")
+						continue
+					}
+					swDefault = "(some " + rv + ")"
 					continue
 				}
 				rv, ok := retVal(cc.Body[0])
@@ -539,7 +551,14 @@ func extractHttpStatus(repo string) (string, error) {
 	fmt.Fprintf(&b, "/-- determineResponseContentType: a configured Content-Type (any key spelling) is returned first -/\ndef ctExplicitWins : Bool := %s\n", explicitWins)
 	fmt.Fprintf(&b, "/-- answer for an empty/absent Accept header (none: falls into the loop) -/\ndef ctEmptyAccept : Option String := %s\n", emptyAccept)
 	fmt.Fprintf(&b, "/-- the switch over the parsed media type of each Accept part, in source order -/\ndef ctCases : List (List String × String) := [%s]\n", strings.Join(cases, ", "))
-	fmt.Fprintf(&b, "/-- answer when no Accept part is recognised -/\ndef ctDefault : String := %s\n", def)
+	fmt.Fprintf(&b, "/-- a `default:` arm of that switch: the answer at the FIRST parsed media type no case lists (none: the loop goes on to the next part) -/\ndef ctSwitchDefault : Option String := %s\n", swDefault)
+	fmt.Fprintf(&b, "/-- answer when no Accept part is recognised -/\ndef ctDefault : String := %s\n\n", def)
+	// ---- executor: which error value (with which code) each refusal exit returns
+	exf, err := parse("graphql/executor/executor.go")
+	if err != nil {
+		return "", err
+	}
+	b.WriteString(gateStamps(x, fset, exf, ec, strConsts))
 	b.WriteString("\nend GqlgenVerif.Gen.HttpStatus\n")
 	if len(x.errs) > 0 {
 		return "", fmt.Errorf("%s", strings.Join(x.errs, "; "))
